@@ -75,6 +75,13 @@ def rand_session(rng, s=1, steps=12, logins=LOGINS, allow_end=True):
             data = rand_data(rng) if verb in ("STOR", "APPE") else None
             x = transfer(s, verb, arg, pasv=rng.choice(["PASV", "EPSV"]), connect=mode, data=data,
                          chunks=rng.choice([1, 2, 3]), rest=rest)
+            if mode == "after" and rng.random() < 0.35:
+                # something else happens while the transfer waits for its data connection
+                k = next(i for i, y in enumerate(x) if y[0] == "dconnect")
+                extra = rng.choice([["send", s, "CWD " + rng.choice(PATH_ARGS)], ["send", s, "CDUP"], ["send", s, "PWD"],
+                                    ["send", s, "REST 2"], ["send", s, "RNFR " + rng.choice(PATH_ARGS)], ["send", s, "TYPE A"],
+                                    ["send", s, "USER " + rng.choice(["u1", "u2", "anonymous"])]])
+                x = x[:k] + [extra] + x[k:]
             if rng.random() < 0.25:
                 # abort somewhere inside
                 k = rng.randrange(1, len(x) + 1)
